@@ -3698,13 +3698,17 @@ class __implementations__:
     def det(a):
         if a.ndim < 2 or a.shape[-2] != a.shape[-1]:
             raise ValueError('Last 2 dimensions of the array must be square')
-        return _Wrapper(evaluable.Determinant, a, shape=a.shape[:-2], dtype=complex if a.dtype == complex else float)
+        if a.dtype in (bool, int):
+            a = a.astype(float)
+        return _Wrapper(evaluable.Determinant, a, shape=a.shape[:-2], dtype=a.dtype)
 
     @implements(numpy.linalg.inv)
     def inv(a):
         if a.ndim < 2 or a.shape[-2] != a.shape[-1]:
             raise ValueError('Last 2 dimensions of the array must be square')
-        return _Wrapper(evaluable.Inverse, a, shape=a.shape, dtype=complex if a.dtype == complex else float)
+        if a.dtype in (bool, int):
+            a = a.astype(float)
+        return _Wrapper(evaluable.Inverse, a, shape=a.shape, dtype=a.dtype)
 
     @implements(numpy.ndim)
     def ndim(a):
